@@ -109,6 +109,16 @@ func GateFn(point string) {
 	}
 }
 
+// exCtxs: contexts obtained by Custom functions called outside a property function (Generator.Example)
+func (r *Runner) exCtxs() *[]ctxRef {
+	r.mu.Lock()
+	defer r.mu.Unlock()
+	if r.curCtxs == nil {
+		r.curCtxs = &[]ctxRef{}
+	}
+	return r.curCtxs
+}
+
 func NewRunner(rec *Recorder) *Runner {
 	r := &Runner{rec: rec, ctxIDs: map[context.Context]int{}, counter: map[string]int{}}
 	r.genv = &GenEnv{cache: map[*GenSpec]*Built{}, run: r}
@@ -467,10 +477,10 @@ func (in *inv) step(op *Op) {
 func (r *Runner) customBody(t *rapid.T, body []Op, ret *Built) any {
 	r.mu.Lock()
 	r.invSeq++
-	in := &inv{r: r, t: t, id: r.invSeq, top: r.curTop, vars: map[string]any{}, ctxs: r.curCtxs}
-	if in.ctxs == nil {
-		in.ctxs = &[]ctxRef{}
+	if r.curCtxs == nil {
+		r.curCtxs = &[]ctxRef{}
 	}
+	in := &inv{r: r, t: t, id: r.invSeq, top: r.curTop, vars: map[string]any{}, ctxs: r.curCtxs}
 	r.mu.Unlock()
 	r.rec.Emit("cinv.begin", F{"inv": in.id})
 	done := false
